@@ -125,10 +125,50 @@ func genHolePair(t *rapid.T, cx *h.Ctx, disjointMembers bool, stats *gen.Stats) 
 	cb := gen.DrawComplex(t, rapid.IntRange(1, 2).Draw(t, "kb"), place)
 	tb := rapid.SampledFrom(gm.Types).Draw(t, "typeB")
 	b := cb.Geom(t, tb, 0, disjointMembers, stats)
+	// decoys: a far-away first (or middle) member in each operand, so that the member which decides the
+	// relation is not the first one and shares no ring contact with anything (containment must be found by a
+	// point-in-polygon probe of the right member pair)
+	if rapid.IntRange(0, 2).Draw(t, "decoys") == 0 {
+		lead := func(g gm.G, decoy gm.G, l string) gm.G {
+			g = g.Norm()
+			var mt string
+			switch decoy.T {
+			case gm.Polygon:
+				mt = gm.MultiPolygon
+			case gm.LineString:
+				mt = gm.MultiLineString
+			default:
+				mt = gm.MultiPoint
+			}
+			var mem []gm.G
+			switch {
+			case g.T == decoy.T:
+				mem = []gm.G{g}
+			case g.T == mt:
+				mem = append(mem, g.Mem...)
+			default:
+				return g
+			}
+			pos := rapid.IntRange(0, len(mem)).Draw(t, l)
+			if pos > 0 && rapid.Bool().Draw(t, l+"first") {
+				pos = 0
+			}
+			out := append(append(append([]gm.G{}, mem[:pos]...), decoy), mem[pos:]...)
+			return gm.G{T: mt, Mem: out}
+		}
+		decoysA := []gm.G{{T: gm.Polygon, Rings: [][]gm.F{sq(20, 0, 22, 2, false)}}, {T: gm.LineString, Co: gm.Fs(20, 0, 22, 2)}, {T: gm.Point, Co: gm.Fs(21, 1)}}
+		decoysB := []gm.G{{T: gm.Polygon, Rings: [][]gm.F{sq(0, 20, 2, 22, true)}}, {T: gm.LineString, Co: gm.Fs(0, 20, 2, 22, 2, 20)}, {T: gm.Point, Co: gm.Fs(1, 21)}}
+		for _, d := range decoysA {
+			a = lead(a, d, "decoyApos")
+		}
+		for _, d := range decoysB {
+			b = lead(b, d, "decoyBpos")
+		}
+	}
 	if rapid.Bool().Draw(t, "swap") {
 		a, b = b, a
 	}
-	m := gen.DrawIntMap(t, -3, 19)
+	m := gen.DrawIntMap(t, -3, 23)
 	return PairCase{A: m.Apply(a), B: m.Apply(b), Family: "hole-nesting"}
 }
 
